@@ -25,9 +25,9 @@ RowApis == ImageApis \ {"qr", "dm", "az", "multiqr"}
 ApiClass(op, api) ==
   CASE op \in {"img", "sym", "png"} /\ api \in ImageApis -> "image"
     [] op \in {"img", "sym", "png"} /\ api = "multiqr.multi" -> "multi"
-    [] op \in {"cwq"} /\ api \in {"qr", "multiqr"} -> "image"
+    [] op \in {"cwq", "qrv"} /\ api \in {"qr", "multiqr"} -> "image"
     [] op \in {"cwq"} /\ api = "multiqr.multi" -> "multi"
-    [] op \in {"cwq"} /\ api = "qr.decoder" -> "matrix"
+    [] op \in {"cwq", "qrv"} /\ api = "qr.decoder" -> "matrix"
     [] op \in {"cwd"} /\ api = "dm" -> "image"
     [] op \in {"cwd"} /\ api = "dm.decoder" -> "matrix"
     [] op = "mat" /\ api \in {"qr.decoder", "dm.decoder", "az.decoder"} -> "matrix"
